@@ -209,7 +209,7 @@ def b_add(parent, cfg, mk):
     a, b, r, ci, co = cfg
     A = mk('a', a); B = mk('b', b); R = mk('r', r)
     ins = [A, B]; outs = [R]
-    CI = mk('ci', 1) if ci else None
+    CI = mk('ci', ci) if ci else None        # ci = width of the carry-in wire (the constructors accept any width: it is a third addend)
     CO = mk('co', 1) if co else None
     P().Add(parent, 'd', A, B, R, ci=CI, co=CO)
     if ci:
@@ -233,8 +233,8 @@ add('Add', 'C07', b_add, r_add,
 
 
 def b_addci(parent, cfg, mk):
-    a, b, r = cfg
-    A = mk('a', a); B = mk('b', b); R = mk('r', r); CI = mk('ci', 1)
+    a, b, r = cfg[:3]
+    A = mk('a', a); B = mk('b', b); R = mk('r', r); CI = mk('ci', cfg[3] if len(cfg) > 3 else 1)
     P().AddCarryIn(parent, 'd', A, B, R, CI)
     return [A, B, CI], [R]
 
@@ -575,8 +575,9 @@ add('Mux(mixed widths)', 'C08', b_mux_mixed, lambda c, v: [v[1 + v[0]]], _MXM, _
 def _pe(inc):
     def b(parent, cfg, mk):
         n = cfg[0]
-        ins = [mk('a%d' % j, 1) for j in range(n)]
-        outs = [mk('r%d' % j, 1) for j in range(n)]
+        w = cfg[1] if len(cfg) > 1 else 1      # wider request / grant wires: one encoder per bit lane
+        ins = [mk('a%d' % j, w) for j in range(n)]
+        outs = [mk('r%d' % j, w) for j in range(n)]
         P().PriorityEncoder(parent, 'd', ins, outs, inc_priority=inc)
         return ins, outs
     return b
@@ -584,11 +585,13 @@ def _pe(inc):
 
 def _pe_ref(hi):
     def r(c, v):
-        idx = [j for j in range(c[0]) if v[j]]
-        if not idx:
-            return [0] * c[0]
-        w_ = max(idx) if hi else min(idx)
-        return [int(j == w_) for j in range(c[0])]
+        w = c[1] if len(c) > 1 else 1
+        out = [0] * c[0]
+        for lane in range(w):
+            idx = [j for j in range(c[0]) if (v[j] >> lane) & 1]
+            if idx:
+                out[max(idx) if hi else min(idx)] |= 1 << lane
+        return out
     return r
 
 
@@ -817,6 +820,8 @@ _TW = [(65, 65, 65), (100, 100, 100), (100, 64, 128), (72, 72, 144), (64, 100, 1
 extend(['Sub', 'Mul', 'SignedMul', 'Div', 'Mod', 'AddCarryIn', 'SubBorrowIn'], _TW)
 extend(['SignedAdd', 'SignedSub'], [t for t in _TW if t[2] >= t[0] and t[2] >= t[1]])
 extend('Add', [(a, b, r, ci, co) for a, b, r in _TW for ci, co in ((0, 0), (1, 1))])
+extend('Add', [(a, b, r, ci, co) for a, b, r in [(1, 1, 1), (3, 3, 4), (8, 8, 8), (8, 8, 9), (4, 2, 6)] for ci in (2, 3) for co in (0, 1)])
+extend(['AddCarryIn'], [(a, b, r, ci) for a, b, r in [(1, 1, 1), (3, 3, 4), (8, 8, 8), (8, 8, 9)] for ci in (2, 3)])
 extend('SignedDiv', [(64, 64, 64), (65, 65, 65), (100, 100, 100), (100, 64, 100)])
 extend(['Neg', 'Abs', 'Abs+inverted', 'SignExtend', 'ZeroExtend'], [(65, 65), (100, 100), (64, 100), (100, 64), (1, 100), (54, 54)])
 extend('Sign', [(65,), (100,)])
@@ -843,7 +848,7 @@ extend(['BitsLSBF', 'BitsMSBF'], [(32,), (64,), (65,)])
 extend(['ConcatenateMSBF', 'ConcatenateLSBF'], [((32, 32), 64), ((33, 32), 65), ((50, 50), 100), ((1, 64), 65), ((64, 64), 128), ((1,) * 9, 9)])
 extend('Mux2', [(64, 1), (65, 1), (100, 1)])
 extend('Constant', [(64, (1 << 64) - 1), (65, 1 << 64), (100, (1 << 99) + 12345), (64, -1), (64, 0x9E3779B97F4A7C15)])
-extend(['PriorityEncoder(inc=True)', 'PriorityEncoder(inc=False)'], [(9,), (17,), (33,)])
+extend(['PriorityEncoder(inc=True)', 'PriorityEncoder(inc=False)'], [(9,), (17,), (33,), (2, 3), (3, 2), (4, 4), (2, 8)])
 
 
 def input_cases(widths, rnd, exhaustive_bits, max_cases, n_random):
